@@ -421,6 +421,9 @@ pub fn run(e: &Engine) {
         Tier::Thorough => (64, 2_000_000),
     };
     e.run_prop("large-recipes", ncases, || recipe_strategy(max_n), |c| c.to_json(), check_recipe);
+    if e.tier == Tier::Thorough {
+        crate::fuzzrun::campaign(e, "roundtrip", 300_000, 700);
+    }
     e.require_class("has_empty_key", 1);
     e.require_class("cache_evicted", 1);
     e.require_class("fanout_256", 1);
